@@ -3,11 +3,22 @@ package group
 // C19 (validators): validGroupName / validUsername vs the predicate of the statement.
 
 import (
+	"encoding/base64"
+	"encoding/json"
+	"fmt"
+	"net"
+	"os"
+	"path/filepath"
 	"strings"
+	"sync"
 	"testing"
+	"time"
 
+	"github.com/golang-jwt/jwt/v5"
 	"pgregory.net/rapid"
 
+	"github.com/jech/galene/conn"
+	"github.com/jech/galene/token"
 	"github.com/jech/galene/verifkit"
 )
 
@@ -39,5 +50,150 @@ func TestVerif_C19_NameValidators(t *testing.T) {
 		}
 		c19vRec.Case(strings.ContainsAny(s, "/\\\x00") || strings.Contains(s, ".."), s, map[string]any{"name": s, "valid": refValidGroup(s)})
 		c19vRec.ClassIf(refValidGroup(s), "valid")
+	})
+}
+
+// ---------------------------------------------------------------------------------------------
+// Usernames by every route a client can bring one in: whoever is admitted to a group carries a
+// username that is empty or obeys the group-name rule.
+
+type c19Client struct {
+	id    string
+	user  string
+	perms []string
+	g     *Group
+}
+
+func (c *c19Client) Group() *Group                                         { return c.g }
+func (c *c19Client) Addr() net.Addr                                        { return nil }
+func (c *c19Client) Id() string                                            { return c.id }
+func (c *c19Client) Username() string                                      { return c.user }
+func (c *c19Client) Init(u string, p []string)                             { c.user, c.perms = u, p }
+func (c *c19Client) Permissions() []string                                 { return c.perms }
+func (c *c19Client) Data() map[string]interface{}                          { return nil }
+func (c *c19Client) Joined(group, kind string) error                       { return nil }
+func (c *c19Client) Kick(id string, user *string, message string) error    { return nil }
+func (c *c19Client) RequestConns(target Client, g *Group, id string) error { return nil }
+func (c *c19Client) PushConn(g *Group, id string, up conn.Up, tracks []conn.UpTrack, replace string) error {
+	return nil
+}
+func (c *c19Client) PushClient(group, kind, id, username string, perms []string, data map[string]interface{}) error {
+	return nil
+}
+
+var c19uRec = verifkit.New("TestVerif_C19_AdmittedUsernames",
+	"a username over the hostile alphabet brought in by every route: configured user + password, wildcard user + client-chosen name, stateful token carrying the name (with and "+
+		"without a harmless client-side name), stateful token without name + client-chosen name, signed token (HS256) with the name as sub, signed token without sub + client-chosen "+
+		"name; the join goes through AddClient on a real group file; oracle: whoever is admitted has a username that is empty or satisfies the group-name rule of the statement; "+
+		"a valid name by a simple route is admitted (non-vacuity); non-trivial = invalid name; distinct by route+name")
+
+var c19uOnce sync.Once
+var c19uDir string
+
+func TestVerif_C19_AdmittedUsernames(t *testing.T) {
+	defer c19uRec.Flush()
+	c19uOnce.Do(func() {
+		c19uDir = verifkit.Scratch("c19u")
+		os.MkdirAll(filepath.Join(c19uDir, "groups"), 0o755)
+		os.MkdirAll(filepath.Join(c19uDir, "data"), 0o755)
+		Directory = filepath.Join(c19uDir, "groups")
+		DataDirectory = filepath.Join(c19uDir, "data")
+		os.WriteFile(filepath.Join(DataDirectory, "config.json"), []byte("{}"), 0o600)
+		token.SetStatefulFilename(filepath.Join(DataDirectory, "tokens.jsonl"))
+	})
+	n := 0
+	hmacKey := []byte("0123456789abcdef0123456789abcdef")
+	rapid.Check(t, func(t *rapid.T) {
+		n++
+		seg := rapid.OneOf(rapid.SampledFrom([]string{"..", ".", "", "a", "b", "a.b", ".a", "a\\b", "\\", "é", "\x00", "%2e%2e", "...", " "}), rapid.StringMatching(`[a-b./\\%]{0,4}`))
+		name := strings.Join(rapid.SliceOfN(seg, 1, 4).Draw(t, "segs"), "/")
+		if rapid.IntRange(0, 3).Draw(t, "plainName") == 0 {
+			name = rapid.SampledFrom([]string{"john", "zoë", "a/b", "x y"}).Draw(t, "validName")
+		}
+		route := rapid.SampledFrom([]string{"configured-user", "wildcard-user", "token-name", "token-name+client-name", "token+client-name", "jwt-sub", "jwt-sub+client-name", "jwt+client-name"}).Draw(t, "route")
+		gname := fmt.Sprintf("c19u%d", n)
+		users := map[string]any{"fixed": map[string]any{"password": "pw", "permissions": "present"}}
+		if route == "configured-user" {
+			users[name] = map[string]any{"password": "pw", "permissions": "present"}
+		}
+		desc := map[string]any{"users": users,
+			"wildcard-user": map[string]any{"password": map[string]any{"type": "wildcard"}, "permissions": "present"},
+			"authKeys":      []any{map[string]any{"kty": "oct", "alg": "HS256", "k": base64.RawURLEncoding.EncodeToString(hmacKey)}}}
+		b, _ := json.Marshal(desc)
+		fn := filepath.Join(Directory, gname+".json")
+		if err := os.WriteFile(fn, b, 0o600); err != nil {
+			t.Fatalf("VERIF-HARNESS-ERROR: %v", err)
+		}
+		defer os.Remove(fn)
+		harmless := "harmless"
+		var creds ClientCredentials
+		tokName := fmt.Sprintf("c19tok%d", n)
+		mkTok := func(user *string) {
+			exp := time.Now().Add(time.Hour)
+			if _, err := token.Update(&token.Stateful{Token: tokName, Group: gname, Username: user, Permissions: []string{"present"}, Expires: &exp}, ""); err != nil {
+				t.Fatalf("VERIF-HARNESS-ERROR: store token: %v", err)
+			}
+		}
+		mkJWT := func(sub *string) string {
+			claims := jwt.MapClaims{"aud": "https://galene.example.org/group/" + gname + "/", "permissions": []string{"present"},
+				"exp": time.Now().Add(time.Hour).Unix(), "iat": time.Now().Add(-time.Minute).Unix()}
+			if sub != nil {
+				claims["sub"] = *sub
+			}
+			s, err := jwt.NewWithClaims(jwt.SigningMethodHS256, claims).SignedString(hmacKey)
+			if err != nil {
+				t.Fatalf("VERIF-HARNESS-ERROR: sign: %v", err)
+			}
+			return s
+		}
+		simple := false // routes on which a valid name must be admitted
+		switch route {
+		case "configured-user":
+			creds = ClientCredentials{Username: &name, Password: "pw"}
+			simple = true
+		case "wildcard-user":
+			creds = ClientCredentials{Username: &name, Password: "anything"}
+			simple = name != "fixed"
+		case "token-name":
+			mkTok(&name)
+			creds = ClientCredentials{Token: tokName}
+			simple = name != ""
+		case "token-name+client-name":
+			mkTok(&name)
+			creds = ClientCredentials{Token: tokName, Username: &harmless}
+			simple = name != ""
+		case "token+client-name":
+			mkTok(nil)
+			creds = ClientCredentials{Token: tokName, Username: &name}
+			simple = name != "fixed"
+		case "jwt-sub":
+			creds = ClientCredentials{Token: mkJWT(&name)}
+		case "jwt-sub+client-name":
+			creds = ClientCredentials{Token: mkJWT(&name), Username: &harmless}
+		case "jwt+client-name":
+			creds = ClientCredentials{Token: mkJWT(nil), Username: &name}
+		}
+		c := &c19Client{id: fmt.Sprintf("c19c%d", n)}
+		g, err := AddClient(gname, c, creds)
+		if err == nil {
+			c.g = g
+			u := c.Username()
+			if u != "" && !refValidGroup(u) {
+				DelClient(c)
+				t.Fatalf("C19: a client was admitted to group %q under the username %q (route %s), which breaks the name rule of the statement", gname, u, route)
+			}
+			DelClient(c)
+		} else if simple && refValidGroup(name) {
+			t.Fatalf("C19 (non-vacuity): the valid username %q was refused by route %s: %v", name, route, err)
+		}
+		if strings.HasPrefix(route, "token") {
+			if _, etag, e := token.Get(tokName); e == nil {
+				token.Delete(tokName, etag)
+			}
+		}
+		c19uRec.Case(!refValidGroup(name), route+"|"+name, map[string]any{"route": route, "name": name, "admitted": err == nil})
+		c19uRec.Class("route_" + route)
+		c19uRec.ClassIf(err == nil, "admitted")
+		c19uRec.ClassIf(err == nil && strings.HasPrefix(route, "jwt"), "admitted_via_signed_token")
 	})
 }
